@@ -907,8 +907,13 @@ def L4_loops_observe_abort(ctx):
             if not twice:
                 continue
             n_loop += 1
-            if not [e for e in p.events if e.kind == 'atom' and e.d['term'][0] == 'call' and callee_matches(e.d['term'][1], 'is_aborted')]:
+            ab_atoms = [e for e in p.events if e.kind == 'atom' and has_call(e.d['term'], 'is_aborted')]
+            if not ab_atoms:
                 # inner loops bounded by a cursor are fine if the outer loop observes abort; require per path
+                bad.append(p)
+            # the flag must be re-read in every iteration: two decisions on the very same load mean it is cached
+            terms = [e.d['term'] for e in ab_atoms]
+            if len(terms) != len(set(terms)):
                 bad.append(p)
         ctx.ob('L4', f, 'loop-observes-abort', n_loop >= need and not bad,
                f'looping paths={n_loop}, without is_aborted()={len(bad)}', site=f.loc(f.b['lo']),
